@@ -16,6 +16,7 @@ use std::time::Instant;
 
 thread_local! {
     static LAST_PANIC: RefCell<Option<(String, String)>> = RefCell::new(None);
+    static GUARD_DEPTH: std::cell::Cell<u32> = std::cell::Cell::new(0);
 }
 
 pub fn install_panic_hook() {
@@ -31,7 +32,7 @@ pub fn install_panic_hook() {
         } else {
             "<non-string panic>".into()
         };
-        if msg.contains("VERIF harness bug") {
+        if msg.contains("VERIF harness bug") || GUARD_DEPTH.with(|d| d.get()) == 0 {
             eprintln!("HARNESS BUG at {}: {}", loc, msg);
         }
         LAST_PANIC.with(|p| *p.borrow_mut() = Some((loc, msg)));
@@ -46,7 +47,10 @@ pub fn take_panic() -> (String, String) {
 
 /// Run `f`, turning a panic into (location, message).
 pub fn guarded<T>(f: impl FnOnce() -> T) -> Result<T, (String, String)> {
-    match panic::catch_unwind(AssertUnwindSafe(f)) {
+    GUARD_DEPTH.with(|d| d.set(d.get() + 1));
+    let r = panic::catch_unwind(AssertUnwindSafe(f));
+    GUARD_DEPTH.with(|d| d.set(d.get() - 1));
+    match r {
         Ok(v) => Ok(v),
         Err(_) => Err(take_panic()),
     }
@@ -353,8 +357,11 @@ pub fn drive(check: Check, tier: &str, seed: i64) -> i32 {
         return 2;
     }
 
-    // vacuity guard
+    // vacuity guard (only meaningful when every execution ran to its end, i.e. no alarm)
     for k in &check.required {
+        if !found.is_empty() {
+            break;
+        }
         if total.counters.get(k).copied().unwrap_or(0) == 0 {
             eprintln!("MACHINERY ERROR property={}: anti-vacuity counter '{}' is zero", check.id, k);
             return 2;
